@@ -42,8 +42,8 @@ def run_monitor(case):
         for t in range(case["ncycles"]):
             p = {"random": .5, "sparse": .15, "busy": .85}[style]
             iv = [int(rnd.random() < p) for _ in range(n)]
-            en = rnd.getrandbits(n) if n else 0
-            cl = rnd.getrandbits(n) if n and rnd.random() < .5 else 0
+            en = lib.bits(rnd, n) if n else 0
+            cl = lib.bits(rnd, n) if n and rnd.random() < .5 else 0
             for k in range(n):
                 ctx.set(srcs[k].i, iv[k])
             ctx.set(dut.enable, en)
